@@ -308,7 +308,7 @@ def run(ctx):
     from rules import C04 as _c04
     from ovsa.engine import Ctx as _Ctx
     sub4 = _Ctx("C04", prog, ctx.root, "quick")
-    _c04.run(sub4)
+    getattr(_c04, "_run_base", _c04.run)(sub4)
     n4 = 0
     for i_ in sub4.instances:
         if i_["rule"] == "R4.3" and i_["inst"].startswith("thread_set_state:TH_ST_"):
